@@ -7,7 +7,8 @@ CONSTANTS Keys = {1, 2, 3, 4}
           Rej = FALSE
           EK = 0
           TName = "IntKeyMap"
+          NHeld = 0
 VIEW View
 INVARIANTS SetOK RefuseOK KeysBagExact NilIsAValue
-PROPERTIES Frame PutStores RefusalInert RemoveExact ClearEmpties PutAllIsPuts ReadOnlyKeeps SizeLaw
+PROPERTIES Frame PutStores RefusalInert RemoveExact ClearEmpties PutAllIsPuts ReadOnlyKeeps OthersKept PutAllFromIsPuts SizeLaw
 CHECK_DEADLOCK FALSE
